@@ -50,6 +50,7 @@ class DispatchLoop(Contract):
         st = types.SimpleNamespace()
         st.N = e.int('N')
         st.threads = e.int('threads')
+        st.valid_log, st.add_log = [], []
         st.isnone = z3.Function('isnone', I_, B_)
         st.flag = [z3.Function(f'flag{j}', I_, B_) for j in range(3)]
         st.npep = z3.Function('npep', I_, I_)
@@ -143,6 +144,7 @@ class DispatchLoop(Contract):
             I.e.prove('C04/is_valid/uses-run-cleavage-params', cp is st.caller.fields['cleavage_params'])
             b = I.e.bool('valid')
             G().last_valid = (seq, b)
+            c._cur.valid_log.append(seq)
             return b
         reg.method_('VariantPeptideTable', 'is_valid', is_valid)
 
@@ -153,6 +155,7 @@ class DispatchLoop(Contract):
                       z3.And(lv is not None and lv[0] is seq, lv[1] if lv is not None else False))
             I.e.prove('C04/add_peptide/before-fasta', G().fasta_written == 0)
             lab = a[1]
+            c._cur.add_log.append((seq, lab))
             I.e.prove('C04/add_peptide/label-belongs-to-peptide',
                       isinstance(lab, SymObj) and lab.cls == 'Label' and isinstance(seq, SymObj)
                       and lab.fields['d'] is seq.fields['d'] and lab.fields['m'] is seq.fields['m'])
@@ -235,6 +238,13 @@ class DispatchLoop(Contract):
             d, m = key.fields['d'], key.fields['m']
             return FnView(c._cur.nlab(d, m), lambda t: SymObj('Label', d=d, m=m, t=t), tag='labels')
         reg.protocol_('PepAnno', '__getitem__', pep_labels)
+
+        def pep_items(I, o, a, k):
+            peps = pep_iter(I, o)
+            return FnView(peps.length(), lambda m: (peps.get(m), pep_labels(I, o, peps.get(m))), tag='peptide items')
+        reg.method_('PepAnno', 'items', pep_items)
+        reg.method_('PepAnno', 'keys', lambda I, o, a, k: pep_iter(I, o))
+        reg.protocol_('PepAnno', '__bool__', lambda I, o: c._cur.npep(o.fields['d']) > 0)
 
     # ------------------------------------------------------------------ loops
     def havoc_tally(self, I, env):
@@ -340,14 +350,38 @@ class DispatchLoop(Contract):
                         t.fields['n_transcripts_failed'][key] == pre[key] + z3.If(as_bool(res[idx]), 0, 1)))
         return out
 
+    # every peptide of a result is offered to the table once; every label of an accepted peptide is recorded once
+    def pep_on_head(self, I, env, k):
+        st = self._cur
+        st.pmark = (len(st.valid_log), len(st.add_log))
+
+    def pep_step(self, I, env, k):
+        st = self._cur
+        v = st.valid_log[st.pmark[0]:]
+        ok = len(v) == 1 and isinstance(v[0], SymObj) and v[0].cls == 'Peptide' and z3.is_true(z3.simplify(v[0].fields['m'] == k))
+        return [('C06/merge/k-th-peptide-offered-to-the-table-once', ok)]
+
+    def lab_on_head(self, I, env, k):
+        st = self._cur
+        st.lmark = len(st.add_log)
+
+    def lab_step(self, I, env, k):
+        st = self._cur
+        a = st.add_log[st.lmark:]
+        ok = len(a) == 1 and isinstance(a[0][1], SymObj) and a[0][1].cls == 'Label' and z3.is_true(z3.simplify(a[0][1].fields['t'] == k))
+        return [('C06/merge/k-th-label-of-the-accepted-peptide-recorded-once', ok)]
+
     @property
     def loops(self):
         T = lambda I, env, k: []
         return {
             1: LoopSpec(inv=self.main_inv, havoc=self.main_havoc, on_head=self.main_on_head, step=self.main_step),
-            2: LoopSpec(inv=T, havoc=self.inner_havoc, on_head=self.results_on_head, step=self.results_step),
-            3: LoopSpec(inv=T, havoc=self.inner_havoc),
-            4: LoopSpec(inv=T, havoc=self.inner_havoc),
+            2: LoopSpec(inv=T, havoc=self.inner_havoc, on_head=self.results_on_head, step=self.results_step,
+                        on_break=lambda I, env, k: [('C06/merge/every-result-of-the-batch-is-merged', False)]),
+            3: LoopSpec(inv=T, havoc=self.inner_havoc, on_head=self.pep_on_head, step=self.pep_step,
+                        on_break=lambda I, env, k: [('C06/merge/every-peptide-of-a-result-is-offered-to-the-table', False)]),
+            4: LoopSpec(inv=T, havoc=self.inner_havoc, on_head=self.lab_on_head, step=self.lab_step,
+                        on_break=lambda I, env, k: [('C06/merge/every-label-of-an-accepted-peptide-is-recorded', False)]),
         }
 
     # ------------------------------------------------------------------ post
